@@ -3,7 +3,7 @@
 
   `["C01.trace", {"limit": n|null}, [[label, snapshot|null], …]]`
      label    = ["arrive",k,e] | ["miss",k,e] | ["insert",k,g,e] | ["spawn",k,g] | ["take",k,g,e]
-              | ["finish",k,g] | ["fail",k,g] | ["retry",k,g] | ["retire",k,g] | ["eos",k,g]
+              | ["finish",k,g] | ["fail",k,g] | ["ttake",k,g,e] | ["retire",k,g] | ["eos",k,g]
               | ["left",k,g] | ["cancel"] | ["eosput",k] | ["close"] | ["kill",k,g] | ["end"]
      snapshot = [pending, running, [[k, backlogSize], … sorted by k]]   (observed AFTER the segment)
   → ["ok", {"accepted": true, "n": N, "final": {...}}]
@@ -39,7 +39,7 @@ def obsOf? (j : Json) : Option Obs := do
     | "take", [k, g, e] => some (.lab (.take ⟨k, g⟩ e))
     | "finish", [k, g] => some (.lab (.finish ⟨k, g⟩))
     | "fail", [k, g] => some (.lab (.fail ⟨k, g⟩))
-    | "retry", [k, g] => some (.lab (.retry ⟨k, g⟩))
+    | "ttake", [k, g, e] => some (.lab (.timeoutTake ⟨k, g⟩ e))
     | "retire", [k, g] => some (.lab (.retire ⟨k, g⟩))
     | "rcheck", [k, g] => some (.lab (.retireCheck ⟨k, g⟩))
     | "rerase", [k, g] => some (.lab (.retireErase ⟨k, g⟩))
@@ -55,7 +55,7 @@ def obsOf? (j : Json) : Option Obs := do
 
 def keysOf : Obs → List Nat
   | .lab (.arrive k _) | .lab (.miss k _) | .lab (.eosPut k) => [k]
-  | .lab (.take w _) | .lab (.finish w) | .lab (.fail w) | .lab (.retry w) | .lab (.retire w)
+  | .lab (.take w _) | .lab (.finish w) | .lab (.fail w) | .lab (.timeoutTake w _) | .lab (.retire w)
   | .lab (.retireCheck w) | .lab (.retireErase w) | .lab (.eosExit w) | .lab (.left w)
   | .lab (.kill w) => [w.key]
   | .insertAs k _ _ | .spawnAs k _ => [k]
